@@ -440,3 +440,83 @@ Proof. intros Hw Hl. pose proof Hw as (Hnd & Hn & Hr). unfold apply_perm.
     2:{ intros q Hq. rewrite Hl. auto. }
     assert (M : memb i perm = true) by (apply memb_In, (wfperm_In n); auto; lia).
     rewrite M. unfold vs. fold (compose pl perm). reflexivity. Qed.
+
+(* ---- _apply_perm with a permutation of a SUBSET of the indices (PAM) ----------------- *)
+Lemma assoc_last_notin k : forall keys vals acc, ~ In k keys -> assoc_last k (combine keys vals) acc = acc.
+Proof. induction keys as [|x t IH]; intros vals acc H; simpl; auto.
+  destruct vals as [|v u]; simpl; auto.
+  destruct (Nat.eqb_spec k x) as [->|Hne]; [exfalso; apply H; left; auto|].
+  apply IH. intros Hc. apply H. right; auto. Qed.
+
+Lemma assoc_last_combine_NoDup : forall keys vals acc j, NoDup keys -> length keys = length vals -> j < length keys ->
+  assoc_last (nth j keys 0) (combine keys vals) acc = Some (nth j vals 0).
+Proof. induction keys as [|x t IH]; intros vals acc j Hnd Hl Hj; simpl in *; [lia|].
+  destruct vals as [|v u]; [discriminate|]. simpl in *. inversion Hnd as [|? ? Hx Ht]; subst.
+  destruct j as [|j].
+  - rewrite Nat.eqb_refl. apply assoc_last_notin. exact Hx.
+  - destruct (Nat.eqb_spec (nth j t 0) x) as [E|E].
+    + exfalso. apply Hx. rewrite <- E. apply nth_In. lia.
+    + apply IH; auto; lia. Qed.
+
+Lemma fold_set_nth_length (f : nat -> nat) : forall keys acc,
+  length (fold_left (fun a q => set_nth q (f q) a) keys acc) = length acc.
+Proof. induction keys as [|q t IH]; simpl; intros acc; auto. rewrite IH, set_nth_length. reflexivity. Qed.
+
+Theorem apply_perm_sub n perm pi :
+  wfperm n pi -> NoDup perm -> (forall x, In x perm -> x < n) ->
+  exists pi', apply_perm perm pi = Some pi' /\ wfperm n pi'.
+Proof. intros Hw Hnd Hr. pose proof Hw as (Pnd & Pl & Pr). unfold apply_perm.
+  assert (Hall : forallb (fun x => x <? length pi) perm = true).
+  { apply forallb_forall. intros x Hx. apply Nat.ltb_lt. rewrite Pl. auto. }
+  rewrite Hall.
+  set (keys := sort perm). set (vals := map (fun p => nth p pi 0) perm).
+  assert (Hperm : Permutation keys perm) by apply sort_perm.
+  assert (Hkn : NoDup keys) by (eapply Permutation_NoDup; [apply Permutation_sym, Hperm|auto]).
+  assert (Hkl : length keys = length vals).
+  { unfold vals. rewrite map_length. apply Permutation_length. exact Hperm. }
+  assert (Hlen : length keys = length perm) by (apply Permutation_length; exact Hperm).
+  (* the value written at position q in perm *)
+  set (f := fun q => match assoc_last q (combine keys vals) None with Some v => v | None => 0 end).
+  assert (Hf : forall q, In q perm -> exists j, j < length perm /\ nth j keys 0 = q /\
+                 assoc_last q (combine keys vals) None = Some (nth (nth j perm 0) pi 0)).
+  { intros q Hq. assert (Hqk : In q keys) by (eapply Permutation_in; [apply Permutation_sym, Hperm|auto]).
+    destruct (In_nth keys q 0 Hqk) as (j & Hj & Ej). exists j. split; [lia|]. split; auto.
+    rewrite <- Ej. rewrite assoc_last_combine_NoDup; auto. f_equal. unfold vals.
+    apply (nth_map_lt (fun p => nth p pi 0)). lia. }
+  rewrite fold_left_ext_In with (g := fun acc q => set_nth q (f q) acc).
+  2:{ intros acc q Hq. destruct (Hf q Hq) as (j & _ & _ & E). unfold f. rewrite E. reflexivity. }
+  eexists. split; [reflexivity|].
+  set (pi' := fold_left (fun acc q => set_nth q (f q) acc) perm pi).
+  assert (Hl' : length pi' = n) by (unfold pi'; rewrite fold_set_nth_length; auto).
+  assert (Hnth : forall i, nth i pi' 0 = if memb i perm then f i else nth i pi 0).
+  { intros i. unfold pi'. apply fold_set_nth_nth. intros q Hq. rewrite Pl. auto. }
+  (* every entry of pi' is an entry of pi, at an index g i that is injective in i *)
+  assert (Hsrc : forall i, i < n -> exists x, x < n /\ nth i pi' 0 = nth x pi 0 /\
+                   (In i perm -> In x perm) /\ (~ In i perm -> x = i)).
+  { intros i Hi. rewrite Hnth. destruct (memb i perm) eqn:M.
+    - apply memb_In in M. destruct (Hf i M) as (j & Hj & _ & E). unfold f. rewrite E.
+      exists (nth j perm 0). assert (In (nth j perm 0) perm) by (apply nth_In; auto).
+      split; [auto|]. split; [reflexivity|]. split; [auto|]. intros Hc. contradiction.
+    - apply memb_false in M. exists i. split; [auto|]. split; [reflexivity|]. split; [contradiction|auto]. }
+  split; [|split; [exact Hl'|]].
+  - apply (NoDup_nth pi' 0). intros a b Ha Hb E. rewrite Hl' in Ha, Hb.
+    rewrite !Hnth in E.
+    destruct (memb a perm) eqn:Ma; destruct (memb b perm) eqn:Mb.
+    + apply memb_In in Ma, Mb. destruct (Hf a Ma) as (ja & Hja & Eja & Ea). destruct (Hf b Mb) as (jb & Hjb & Ejb & Eb).
+      unfold f in E. rewrite Ea, Eb in E.
+      assert (nth ja perm 0 = nth jb perm 0).
+      { apply (nth_inj_NoDup pi); auto; rewrite Pl; apply Hr; apply nth_In; auto. }
+      assert (ja = jb) by (apply (nth_inj_NoDup perm); auto). subst jb. congruence.
+    + apply memb_In in Ma. apply memb_false in Mb. destruct (Hf a Ma) as (ja & Hja & _ & Ea).
+      unfold f in E. rewrite Ea in E.
+      assert (nth ja perm 0 = b).
+      { apply (nth_inj_NoDup pi); auto; rewrite Pl; auto. apply Hr. apply nth_In; auto. }
+      exfalso. apply Mb. rewrite <- H. apply nth_In; auto.
+    + apply memb_false in Ma. apply memb_In in Mb. destruct (Hf b Mb) as (jb & Hjb & _ & Eb).
+      unfold f in E. rewrite Eb in E.
+      assert (a = nth jb perm 0).
+      { apply (nth_inj_NoDup pi); auto; rewrite Pl; auto. apply Hr. apply nth_In; auto. }
+      exfalso. apply Ma. rewrite H. apply nth_In; auto.
+    + apply (nth_inj_NoDup pi); auto; rewrite Pl; auto.
+  - intros x Hx. destruct (In_nth pi' x 0 Hx) as (i & Hi & <-). rewrite Hl' in Hi.
+    destruct (Hsrc i Hi) as (y & Hy & -> & _). apply Pr. apply nth_In. rewrite Pl. exact Hy. Qed.
